@@ -195,7 +195,8 @@ def make_cases(ctx: Ctx, rng):
                               {"kind": "impulse", "t0": (j - 1) * step + 1, "planned": False, "target": 1}])
             # event times with fractional seconds just after / before a step boundary and mid-step
             j = rng.randint(1, n - 1)
-            for frac in ((0.4, -0.3) if ctx.quick else (0.4, 0.25, -0.3, 0.5)):
+            # (0.0004 s and 0.00006 s: inside the millisecond / the 1-2 ulp band of a Julian date after a boundary)
+            for frac in ((0.4, -0.3, 0.0004, 0.00006) if ctx.quick else (0.4, 0.25, -0.3, 0.5, 0.0004, 0.00006, -0.0004, 0.002)):
                 add(start, step, [{"kind": "impulse", "t0": j * step + frac, "planned": frac > 0}])
             # overlapping duration events on one sensor / one engine, and an impulse on a target added earlier in the run
             a = rng.randint(1, n - 1)
